@@ -312,14 +312,10 @@ def popForEndTag (H : List Handler) (s : St) (lname : Bytes) : St :=
     (popped.reverse.map StackItem.data).foldl (stopMatching H) { s with stack := rest }
   | none => s
 
-/-- `handle_tag` for an end tag (dispatcher.rs:455-480) with `handle_end_tag`
-(rewrite_controller.rs:160), `pop_up_to` and `stop_matching`; when scanning, `handle_end_tag_hint`
-(dispatcher.rs:521) forces the lexeme if emission must resume. -/
-def stepEndTag (H : List Handler) (enc : Enc) (s : St) (name raw : Bytes) : St Ã— Bytes :=
-  let f := flushPendingText H enc s
-  let s := f.1
-  let lname := asciiLowerBytes name
-  let s := popForEndTag H s lname
+/-- The part of `handle_tag` for an end tag after the controller popped the open-element stack
+(dispatcher.rs:466-478): decide whether emission resumes, produce the token if it is captured (run
+the activated end-tag handlers), serialise, re-evaluate `emission_enabled`. -/
+def emitEndTag (enc : Enc) (s : St) (name raw : Bytes) : St Ã— Bytes :=
   -- dispatcher.rs:208 `should_stop_removing_element_content`
   let stopRemoving := !s.emission && s.removedCount == 0
   let captured := s.endTagHandlers.any (fun it => it.userCount > 0) || stopRemoving
@@ -328,10 +324,18 @@ def stepEndTag (H : List Handler) (enc : Enc) (s : St) (name raw : Bytes) : St Ã
     let r := runEndTagHandlers s.endTagHandlers { name := name, raw := raw }
     let s := { s with endTagHandlers := r.1 }
     let out := if s.emission then r.2.intoBytes enc else []
-    ({ s with emission := s.removedCount == 0 }, f.2 ++ out)
+    ({ s with emission := s.removedCount == 0 }, out)
   else
     let out := if s.emission then raw else []
-    ({ s with emission := s.removedCount == 0 }, f.2 ++ out)
+    ({ s with emission := s.removedCount == 0 }, out)
+
+/-- `handle_tag` for an end tag (dispatcher.rs:455-480) with `handle_end_tag`
+(rewrite_controller.rs:160), `pop_up_to` and `stop_matching`; when scanning, `handle_end_tag_hint`
+(dispatcher.rs:521) forces the lexeme if emission must resume. -/
+def stepEndTag (H : List Handler) (enc : Enc) (s : St) (name raw : Bytes) : St Ã— Bytes :=
+  let f := flushPendingText H enc s
+  let r := emitEndTag enc (popForEndTag H f.1 (asciiLowerBytes name)) name raw
+  (r.1, f.2 ++ r.2)
 
 /-- One source token through the dispatcher: the new state and the bytes that reach the sink. -/
 def step (H : List Handler) (enc : Enc) (s : St) : SrcToken â†’ St Ã— Bytes
